@@ -389,8 +389,15 @@ namespace PGV.Proofs.Total
 open PGV PGV.Model
 
 theorem NP_keyStr (e : Ext) (k : GoVal) : NP (keyStr e k) := by
-  have := fun x => NP_sprintExt e x
-  unfold keyStr; np
+  have hs := fun x => NP_sprintExt e x
+  unfold keyStr
+  split
+  · exact NP_pure _
+  · split
+    · split
+      · exact NP_pure _
+      · exact hs _
+    · exact hs _
 theorem NP_nonStruct (n : Bytes) (v : GoVal) (g : Bool) (st : WSt) : NP (nonStruct n v g st) := by unfold nonStruct; np
 
 mutual
